@@ -768,6 +768,8 @@ func TestVerifC14(t *testing.T) { //nolint:gocognit,cyclop,maintidx
 	run.Parallel(len(specs), kit.N(10, 12), func(i int) {
 		c14RunCase(run, i, specs[i], keys)
 	})
+	// hostile part: hand-built DTLS peers presenting certificate chains (c14_impostor_test.go); 7 chain classes × 2 victim roles
+	c14Impostor(run, len(specs), kit.N(14, 140), keys)
 }
 
 func c14Pick(v int, r *kit.Rand) bool {
